@@ -17,7 +17,8 @@ class TLCResult:
         self.depth = 0
         self.violation = None  # text of a violated invariant/property, if any
         self.error = None  # any other TLC error
-        self.lines = []  # PrintT payload lines (already json-decoded once -> str)
+        self.lines = []  # PrintT payload lines of the first collected prefix
+        self.out = {}  # prefix -> payload lines
         self.coverage = {}  # action name -> (distinct, total)
         self.wall = 0.0
         self.cmd = ""
@@ -37,6 +38,8 @@ def run_tlc(module, cfg, workers=16, scratch=None, extra=(), timeout=3600, colle
     collect: prefix (e.g. "EDGE ") of PrintT lines to keep (decoded to the text after the prefix).
     line_cb: called with each decoded payload instead of storing it.
     """
+    if isinstance(collect, str):
+        collect = (collect,)
     own = scratch is None
     scratch = scratch or Scratch()
     res = TLCResult()
@@ -68,12 +71,20 @@ def run_tlc(module, cfg, workers=16, scratch=None, extra=(), timeout=3600, colle
     in_err = False
     try:
         for line in proc.stdout:
-            if collect and line.startswith('"' + collect):
-                payload = json.loads(line)[len(collect):]
-                if line_cb:
+            pref = None
+            if collect and line.startswith('"'):
+                for c in collect:
+                    if line.startswith(c, 1):
+                        pref = c
+                        break
+            if pref is not None:
+                payload = json.loads(line)[len(pref):]
+                if line_cb and pref == collect[0]:
                     line_cb(payload)
                 else:
-                    res.lines.append(payload)
+                    res.out.setdefault(pref, []).append(payload)
+                    if pref == collect[0]:
+                        res.lines.append(payload)
                 continue
             tail.append(line)
             if len(tail) > 400:
